@@ -24,11 +24,20 @@
      wiener_khinchin         rectangular lag window, lag N-1, biased, NFFT >= 2N-1, either back end:
                              CORRELOGRAMPSD(x) = speriodogram(complex x, rectangular) as lists (N invertible)
      wiener_khinchin_ord     the same in any formally real *-field (no side condition; applies to QcC and C)
+     correlogram_buffer      NFFT >= lag+1 (overlapping layouts included): the transformed buffer is the closed form
+                             [layout] of the three sequential slice writes (the negative-lag slice wins on overlap)
+     correlogram_auto_raises the auto-correlogram fails exactly when lag >= N, NFFT = 0, or NFFT < lag+1 with lag <> 1
+                             (for lag = 1 numpy broadcasts the single value into the empty slices)
+     periodogram_pipeline    the interpreter of the pipeline record (speriodogram keyword sources, psd-setter rule per data
+                             type, scale rule) at the record of the current tree is the class model p_call; the check
+                             re-extracts the record from the snapshot source on every run (fail-closed ast translator)
+                             and re-proves "interpreter at the extracted record = p_call" (call_pipeline_is_modelled)
    NOT PROVED: nothing of the statement of C01 is left unproved at model level; rounding error of the binary64
    code, the numerical values of the named windows (C20) and the faithfulness of the hand-written model (tied by
    the correspondence run only) are outside the theorems. *)
 Require Import Spectrum.Theory.Ops Spectrum.Theory.Sum Spectrum.Theory.Vec Spectrum.Theory.Dft Spectrum.Theory.Order
                Spectrum.Model.Corr Spectrum.Model.Periodogram
+               Spectrum.Model.PeriodogramGen Spectrum.Proofs.PeriodogramGenTheory
                Spectrum.Proofs.PeriodogramTheory Spectrum.Proofs.PeriodogramClassTheory Spectrum.Proofs.CorrelogramTheory
                Spectrum.Instances.QcC Spectrum.Instances.QcCOrd Spectrum.Instances.QcCTw.
 From Coq Require Import QArith Qcanon.
@@ -127,6 +136,25 @@ Theorem wiener_khinchin_ord {OL : OrdLaws OF} n tw {T : Twiddle n tw} rp twopi f
   correlogram tw rp x None (length x - 1) wfull (Some n) Biased be
   = Some (speriodogram tw twopi x (mk (length x) (fun _ => 1)) (Some n) false PyFalse PyFalse fs).
 Proof. exact (wiener_khinchin_ord_thm n tw rp twopi fs x wfull be). Qed.
+
+Theorem correlogram_buffer tw rp (x : list F) y lag wfull NFFT nm be rxy ryx :
+  let n := resolve NFFT (length x) in
+  (lag < length x)%nat -> (lag + 1 <= n)%nat ->
+  corr_pos be rp x (match y with None => x | Some v => v end) lag nm = Some rxy ->
+  (match y with None => Some rxy | Some v => corr_pos be rp v x lag nm end) = Some ryx ->
+  correlogram tw rp x y lag wfull NFFT nm be
+  = Some (map re (dft tw n (mk n (layout n lag (bt_a rxy (skipn (lag + 1) wfull)) (bt_b ryx (skipn (lag + 1) wfull)))))).
+Proof. exact (correlogram_buffer_thm tw rp x y lag wfull NFFT nm be rxy ryx). Qed.
+
+Theorem correlogram_auto_raises tw rp (x : list F) lag wfull NFFT nm be :
+  let n := resolve NFFT (length x) in
+  correlogram tw rp x None lag wfull NFFT nm be = None <->
+  (length x <= lag \/ n = 0 \/ (n < lag + 1 /\ lag <> 1))%nat.
+Proof. exact (correlogram_auto_raises_thm tw rp x lag wfull NFFT nm be). Qed.
+
+Theorem periodogram_pipeline (tw : Z -> F) (twopi : F) (s : pstate) :
+  p_call_gen current_pipe tw twopi s = p_call tw twopi s.
+Proof. exact (current_pipeline_is_model_thm tw twopi s). Qed.
 End C01.
 
 (* ---------------- non-vacuity on concrete Gaussian-rational inputs (exact twiddles of order 2 and 4) ---------------- *)
@@ -185,3 +213,6 @@ Print Assumptions periodogram_class_def.
 Print Assumptions correlogram_bins.
 Print Assumptions wiener_khinchin.
 Print Assumptions wiener_khinchin_ord.
+Print Assumptions correlogram_buffer.
+Print Assumptions correlogram_auto_raises.
+Print Assumptions periodogram_pipeline.
